@@ -49,6 +49,16 @@ func Spec(id, tier string) *core.CheckSpec {
 			{Engine: "schedsim", Label: "sync-pool", Seconds: sec(6, 100), Opt: core.Options{Params: p("comp", "syncpool")}},
 			{Engine: "schedsim", Label: "slashing-exit-pools", Seconds: sec(6, 100), Opt: core.Options{Params: p("comp", "misc")}},
 		}
+	case "C08", "C14", "C15", "C05", "C04":
+		cs.Batches = []core.Batch{
+			{Engine: "chainsim", Label: "swarm", Seconds: sec(45, 600), Opt: core.Options{}},
+			{Engine: "chainsim", Label: "late-forks", Seconds: sec(25, 300), Opt: core.Options{Params: p("forks", "late")}},
+		}
+	case "C18":
+		cs.Level = "fault_enumeration"
+		cs.Batches = []core.Batch{
+			{Engine: "chainsim", Label: "enumerate-faults", Seconds: sec(60, 900), Opt: core.Options{Params: p("c18", "1")}},
+		}
 	default:
 		return nil
 	}
